@@ -204,7 +204,8 @@ def main():
     env["VERIF_DIR"] = VERIF
 
     rc, log = build(prop)
-    evdir = os.path.join(VERIF, "evidence")
+    # evidence of runs against a scratch copy (mutant runs) never overwrites the evidence for /repo
+    evdir = os.path.join(VERIF, "evidence") if os.path.abspath(REPO) == "/repo" else os.path.join(bd, "evidence")
     os.makedirs(os.path.join(evdir, "replay"), exist_ok=True)
     if rc != 0:
         # A harness that no longer builds against the tree means a public member the property talks about
